@@ -359,6 +359,17 @@ func gen(thorough bool, emit func(tcase)) {
 			}
 		})
 	}
+	// list chains with a digesting chain argument in all three forms: the model does not predict the digest of
+	// arbitrary results, but the forms must agree (incl. the case where no result survives)
+	for _, add := range adds {
+		for _, f := range forms {
+			elemSeqs(maxN, add != "~", func(es []int) {
+				for _, a := range []string{"{}", "%{}", "{z: 0}", "[0]"} {
+					emit(tcase{Kind: "xform", Main: "@", Add: add, Form: f, Elems: es, Arg: a})
+				}
+			})
+		}
+	}
 	// reduce chains
 	for _, add := range adds {
 		for _, f := range forms {
